@@ -58,7 +58,7 @@ def expected(order, units, dropins):
 
 def run(ctx):
     ctx.rule = ("layouts of 1-3 search directories (QUADLET_UNIT_DIRS), each optionally with a subdirectory; 1-4 unit names (plain, template, template instance, volume) each placed in 1-2 "
-                "directories; drop-in files (*.conf and a non-conf decoy) placed in <unit>.d and <base>@.<type>.d directories of arbitrary search directories; every file carries a marker; "
+                "directories; drop-in files (*.conf and a non-conf decoy) placed in <unit>.d and <base>@.<type>.d directories of arbitrary search directories; every file carries a marker (a label, and a PodmanArgs tag that shows the merge order); "
                 "run end to end with --dry-run; non-trivial = a name occurs twice or a drop-in lives in another search dir than its unit; distinct = distinct layouts")
     rng = ctx.rng
     n = ctx.volume(150, 2000)
@@ -72,9 +72,10 @@ def run(ctx):
                 sec = "Volume" if name.endswith(".volume") else "Container"
                 for loc in locs:
                     base = "Image=img\n" if sec == "Container" else ""
-                    files["%s/%s" % (loc, name)] = "[%s]\n%sLabel=origin=%s\n" % (sec, base, loc.replace("/", "_"))
+                    files["%s/%s" % (loc, name)] = "[%s]\n%sLabel=origin=%s\nPodmanArgs=--tag=main\n" % (sec, base, loc.replace("/", "_"))
                 for (loc, dn, conf) in dropins[name]:
-                    files["%s/%s/%s" % (loc, dn, conf)] = "[%s]\nLabel=m%s=%s\n" % (sec, conf[:2], ("%s|%s|%s" % (loc, dn, conf)).replace("/", "_"))
+                    mark = ("%s|%s|%s" % (loc, dn, conf)).replace("/", "_")
+                    files["%s/%s/%s" % (loc, dn, conf)] = "[%s]\nLabel=m%s=%s\nPodmanArgs=--tag=%s\n" % (sec, conf[:2], mark, mark)
             for d in order:
                 files.setdefault(d + "/.keep", "")
             e2e.make_tree(root, files)
@@ -96,10 +97,11 @@ def run(ctx):
                 if text is None:
                     ctx.failures.append({"op": "e2e", "layout": [order, units], "what": "no service for %s" % name, "class": None})
                     continue
-                labels = {}
+                labels, tags = {}, []
                 for ln in text.split("\n"):
                     if ln.startswith("ExecStart="):
                         argv = vlib.sd_split_many([ln[len("ExecStart="):].encode()])[0] or []
+                        tags = [a[len("--tag="):] for a in argv if a.startswith("--tag=")]
                         for j in range(len(argv) - 1):
                             if argv[j] == "--label":
                                 k, _, v = argv[j + 1].partition("=")
@@ -112,13 +114,15 @@ def run(ctx):
                     bad = "%s taken from %s, first in search order is %s" % (name, got_origin, origin)
                 elif got_marks != want_marks:
                     bad = "%s: drop-ins applied %s, expected %s" % (name, got_marks, want_marks)
+                elif tags != ["main"] + [m.replace("/", "_") for m in marks]:
+                    bad = "%s: merge order %s, expected the main file and then the drop-ins by file name: %s" % (name, tags, ["main"] + [m.replace("/", "_") for m in marks])
                 if bad:
                     missing_elsewhere = all(m in want_marks for m in got_marks)
                     ctx.failures.append({"op": "e2e", "layout": [order, units, {k: v for k, v in dropins.items()}], "what": bad,
                                          "class": "DropinsOnlyBesideUnit" if (got_origin == origin.replace("/", "_") and missing_elsewhere) else None})
     ctx.samples = [{"search_order": o, "units": u} for _, o, u, _ in [gen_layout(rng) for _ in range(3)]]
     unknown = [f for f in ctx.failures if f["class"] is None]
-    ctx.oblig("direct oracle: exactly one service per file name, taken from the first directory in search order; drop-ins from <name>.d (and <base>@.<type>.d) of every search dir, earlier dir hides later of the same name",
+    ctx.oblig("direct oracle: exactly one service per file name, taken from the first directory in search order; drop-ins from <name>.d (and <base>@.<type>.d) of every search dir, earlier dir hides later of the same name; merged after the main file in the order of their file names",
               not ctx.failures, "%d failures (%d outside known classes)" % (len(ctx.failures), len(unknown)))
 
 
